@@ -35,7 +35,7 @@ def build_sets(ctx):
             k = rng.randint(1, min(4, len(rc.variants(cat))))
             maps[cat] = rc.gen_map(rng, cat, rng.sample(rc.variants(cat), k), maxfiles=3)
         sets.append(rc.mk_case('all', maps, 'all:random'))
-    return [s for s in sets if s['wf']]
+    return [s for s in rc.corpus_cases('C13') + rc.corpus_cases('C12') + sets if s['wf']]
 
 
 def renders(ctx, base, rng, n_orders, same_order_procs=2):
@@ -48,6 +48,52 @@ def renders(ctx, base, rng, n_orders, same_order_procs=2):
         out.append((c, rc.run_impl_fresh(binary, c)))
     for _ in range(same_order_procs):
         out.append((base, rc.run_impl_fresh(binary, base)))
+    return out
+
+
+# ----------------------------------------------------------------------------- the real binary, end to end
+SOL = {
+    'A.sol': 'pragma solidity ^0.8.0;\ncontract A {\n    uint256 x;\n    address owner;\n    function f(uint256[] memory a) public {\n'
+             '        for (uint256 i = 0; i < a.length; i++) {\n            x = x + 1;\n        }\n    }\n'
+             '    function g(address t) public returns (bool) {\n        require(t != address(0) && x > 1, "this revert string is definitely longer than thirty-two bytes");\n'
+             '        return x / 2 * 3 >= 4;\n    }\n}\n',
+    'B.sol': 'pragma solidity >=0.8.4;\ninterface IERC20 { function transfer(address to, uint256 v) external returns (bool); }\n'
+             'contract B {\n    uint8 a;\n    uint256 b;\n    uint8 c;\n    function kill() public {\n        selfdestruct(payable(address(0)));\n    }\n'
+             '    function pay(IERC20 t) public {\n        t.transfer(msg.sender, 1);\n    }\n    function h() private {}\n    constructor() {}\n}\n',
+    'C.sol': 'pragma solidity 0.7.6;\ncontract C {\n    uint256 private v;\n    function s(bytes memory d) external returns (bytes32) {\n'
+             '        v = v * 4;\n        return keccak256(d);\n    }\n}\n',
+}
+LAYOUT = [('A.sol', 'A.sol'), ('B.sol', 'B.sol'), ('C.sol', 'C.sol'), ('sub/A.sol', 'C.sol'), ('sub/Z.sol', 'A.sol'),
+          ('sub/deep/B.sol', 'B.sol'), ('other/M.sol', 'B.sol'), ('skip.t.sol', 'A.sol'), ('notes.txt', 'A.sol')]
+
+
+def binary_runs(ctx, rng, n_trees, runs_per_tree):
+    """the same tree content created in different orders, analysed by the real binary in fresh
+    processes (cwd under /verif/.cache) -> list of (creation order, report bytes | error text)"""
+    import os, shutil, subprocess
+    binary = vlib.build_solstat_bin()
+    base = os.path.join(vlib.CACHE, 'c13-bin-%d' % os.getpid())
+    shutil.rmtree(base, ignore_errors=True)
+    out = []
+    for t in range(n_trees):
+        order = list(LAYOUT)
+        rng.shuffle(order)
+        root = os.path.join(base, 'tree%d' % t)
+        for rel, src in order:
+            path = os.path.join(root, 'contracts', rel)
+            os.makedirs(os.path.dirname(path), exist_ok=True)
+            with open(path, 'w') as f:
+                f.write(SOL[src])
+        for r in range(runs_per_tree):
+            rep_path = os.path.join(root, 'solstat_report.md')
+            if os.path.exists(rep_path):
+                os.remove(rep_path)
+            p = subprocess.run([binary, '--path', './contracts'], cwd=root, stdout=subprocess.PIPE, stderr=subprocess.PIPE, timeout=300)
+            if p.returncode != 0 or not os.path.exists(rep_path):
+                out.append(([rel for rel, _ in order], 'EXIT %d: %s' % (p.returncode, p.stderr.decode(errors='replace')[-300:])))
+            else:
+                out.append(([rel for rel, _ in order], open(rep_path, 'rb').read()))
+    shutil.rmtree(base, ignore_errors=True)
     return out
 
 
@@ -84,7 +130,25 @@ def run(rep, ctx):
                      'Non-trivial = well-formed set with >= 2 entries' % n_orders,
                      {'sets': len(sets), 'renders_in_fresh_processes': total_renders, 'orders_per_set': n_orders,
                       'sets_with_more_than_one_output': len(failing)})
+    # the real binary on the same tree content created in different orders
+    bruns = binary_runs(ctx, rng, 3 if ctx.tier == 'quick' else 8, 3 if ctx.tier == 'quick' else 5)
+    bdistinct = list(dict.fromkeys(o if isinstance(o, str) else bytes(o) for _, o in bruns))
+    rep.coverage['binary_end_to_end'] = {'runs': len(bruns), 'distinct_reports': len(bdistinct),
+                                         'report_bytes': len(bdistinct[0]) if bdistinct and not isinstance(bdistinct[0], str) else 0,
+                                         'tree': [rel for rel, _ in LAYOUT]}
+    log('binary:', len(bruns), 'runs,', len(bdistinct), 'distinct reports')
     found = False
+    if len(bdistinct) > 1 or any(isinstance(o, str) for o in bdistinct):
+        found = True
+        firsts = {}
+        for order, o in bruns:
+            firsts.setdefault(o if isinstance(o, str) else bytes(o), order)
+        rep.violation(rc.CODES[31] + ' - the solstat binary on the same directory content (files created in different orders, fresh processes)',
+                      {'kind': 'S', 'input': {'binary': True, 'files': {rel: SOL[src] for rel, src in LAYOUT}},
+                       'theorem': 'render_set_function (with analyze_dir: run_deterministic)',
+                       'distinct_outputs': [{'creation_order': order, 'report': o if isinstance(o, str) else rc.show(o, 1500)}
+                                            for o, order in list(firsts.items())[:3]],
+                       'rust_function': 'main: analyze_dir x3 + report::generation::generate_report'})
     # (a) per-process randomness alone: the SAME insertion order rendered in fresh processes
     hash_failing = [(s, rs) for s, rs in failing if distinct_outputs([(c, o) for c, o in rs if c is s]) > 1]
     if hash_failing:
@@ -135,6 +199,17 @@ def replay(obj):
     ctx.seed = 1
     ctx.harness = vlib.build_harness()
     case = obj['input']
+    if case.get('binary'):
+        bruns = binary_runs(ctx, random.Random(3), 4, 3)
+        groups = {}
+        for order, o in bruns:
+            groups.setdefault(o if isinstance(o, str) else bytes(o), []).append(order)
+        print('solstat binary: %d runs over the same tree content -> %d distinct reports' % (len(bruns), len(groups)))
+        for o, orders in groups.items():
+            print('--- report produced %d times, e.g. creation order %s' % (len(orders), orders[0]))
+            print(o if isinstance(o, str) else rc.show(o, 2500))
+        print('specification: all reports must be identical ->', 'holds' if len(groups) == 1 else 'VIOLATED')
+        return 0 if len(groups) == 1 else 1
     if obj.get('same_insertion_order'):
         rs = [(case, rc.run_impl_fresh(rc.vh_report(ctx), case)) for _ in range(12)]
         print('(the same insertion order in every process)')
